@@ -229,8 +229,8 @@ type State struct {
 	seen  map[[2]int]bool
 	first [nOrigins][]byte // copy of the first ID observed per origin on this path
 	keptv []kept
-	last  []byte        // copy of the ID returned by the last step
-	bound [nOrigins]int // which anonymous id choice (X+1) the origin was first accepted under
+	last  []byte           // copy of the ID returned by the last step
+	bound [nOrigins][2]int // per origin and per index key in force (own / other key set): which anonymous id choice (X+1) it was first accepted under
 }
 
 func cloneState(s *State) *State {
@@ -315,13 +315,17 @@ func applyInner(s *State, op Op) (string, *mc.Viol) {
 	// the attester binds an origin's issuer id to the first anonymous id it saw for it; a
 	// request of the same origin under the OTHER anonymous id is legitimately refused (C09's
 	// subject) and tells nothing about the ID
-	if se != nil && se.Stage == "attester-index" && s.bound[op.O] != 0 && s.bound[op.O] != op.X+1 {
+	ak := 0
+	if wd.alt[op.O] {
+		ak = 1
+	}
+	if se != nil && se.Stage == "attester-index" && s.bound[op.O][ak] != 0 && s.bound[op.O][ak] != op.X+1 {
 		s.hist = s.hist + op.label() + ";"
 		s.depth++
 		return "refused:origin-bound-to-the-other-anonymous-id", nil
 	}
-	if se == nil && s.bound[op.O] == 0 {
-		s.bound[op.O] = op.X + 1
+	if se == nil && s.bound[op.O][ak] == 0 {
+		s.bound[op.O][ak] = op.X + 1
 	}
 
 	class := "first-request-for-origin"
@@ -512,9 +516,20 @@ func newSeq(c, ks, depth int) *mc.Seq[*State, Op] {
 	for o := 0; o < nOrigins; o++ {
 		menu = append(menu, Op{C: c, KS: ks, O: o, B: 3, R: true})
 	}
+	var menu3 []Op
+	for _, o := range menu {
+		if o.R || o.B == 0 || o.B == 3 {
+			menu3 = append(menu3, o)
+		}
+	}
 	return &mc.Seq[*State, Op]{
-		Init:  func() *State { return &State{} },
-		Ops:   func(*State, int) []Op { return menu },
+		Init: func() *State { return &State{} },
+		Ops: func(_ *State, d int) []Op {
+			if d >= 2 {
+				return menu3 // third step: two blinds per origin, the shared anonymous id, re-registration
+			}
+			return menu
+		},
 		Apply: apply,
 		// no Clone: successors are produced by replaying the history on a fresh State, so that ONE
 		// issuer object and ONE attester cache live through a whole history (whatever they remember
@@ -564,9 +579,17 @@ func main() {
 			combos = append(combos, combo{c, ks})
 		}
 	}
+	// depth 3 (thorough) costs 21^3 full flows per (client, key set): it is run for four of the ten
+	// combinations (one per kind of client), the others stay at depth 2
+	deep := map[combo]bool{{0, 0}: true, {2, 1}: true, {3, 0}: true, {4, 0}: true}
 	r.Par(len(combos), func(i int) {
-		newSeq(combos[i].c, combos[i].ks, depth).Run(r)
+		d := depth
+		if d > 2 && !deep[combos[i]] {
+			d = 2
+		}
+		newSeq(combos[i].c, combos[i].ks, d).Run(r)
 	})
+	r.Set("depth_3_combinations", "clients c1/k0, c3/k1, c4/k0, c5/k0 (thorough); all others depth 2")
 
 	// client key encodings
 	var encs []encCase
